@@ -398,6 +398,8 @@ func checkMutate(mc MutCase, ctx *vcommon.Ctx) *vcommon.Failure {
 var mutTemplates = []string{
 	`{"refs":[],"tags":[]}`, `[[],[]]`, `[]`, `{}`, `{"a":{},"b":{}}`, `{"a":{"b":[]},"c":[],"d":{}}`, `[{},[],{},[]]`,
 	`{"rows":[{"id":1,"tags":[]},{"id":2,"tags":[]}],"meta":{}}`, `[[[]],[[]]]`, `{"k":[1,"x",[]],"e":[]}`, `[[], {"a": []}, []]`,
+	// equal non-empty sub-documents: each must load as an object of its own
+	`[[1,2],[1,2]]`, `{"a":{"x":[1]},"b":{"x":[1]}}`, `[{"t":["x"]},{"t":["x"]},["x"]]`, `{"a":["s",{}],"b":["s",{}]}`,
 }
 
 func genMutCase() *rapid.Generator[MutCase] {
